@@ -251,6 +251,77 @@ func c06(args []string) int {
 	dsh.Close()
 	hsh.Close()
 
+	// ---------------- part 2b: hosts ADDED to a running scheduler (Add interleaved with NextAndPush) ----------------
+	osh := run.NewShard("From MV Require Import Model.Edf.\nFrom Coq Require Import List ZArith.\nImport ListNotations.\nOpen Scope Z_scope.\n",
+		"edf_ops_case", "edf_ops_mismatches")
+	for ci := 0; ci < run.N(40, 400); ci++ {
+		n := 2 + r.Intn(4)
+		ws := make([]uint32, n)
+		for j := range ws {
+			switch r.Intn(4) {
+			case 0:
+				ws[j] = 1
+			case 1:
+				ws[j] = 128
+			default:
+				ws[j] = uint32(1 + r.Intn(128))
+			}
+		}
+		if ci == 0 {
+			ws = []uint32{1, 128, 64}
+		}
+		ed := cluster.VerifNewEdf(len(ws))
+		var ops []string
+		var opsJ []interface{}
+		added := 0
+		add := func() {
+			ed.Add(added, ws[added])
+			added++
+			ops = append(ops, "None")
+			opsJ = append(opsJ, "add")
+		}
+		add()
+		if r.Pct(70) || ci == 0 {
+			add()
+		}
+		// segments of picks between Adds; the window bound must hold inside every segment for the hosts present
+		bad := ""
+		for added <= len(ws) {
+			seg := 1 + r.Intn(run.N(200, 600))
+			if ci == 0 && added == 2 {
+				seg = 128
+			}
+			picks := make([]int, seg)
+			for k := range picks {
+				picks[k] = ed.Next()
+				ops = append(ops, fmt.Sprintf("(Some %d%%nat)", picks[k]))
+				opsJ = append(opsJ, picks[k])
+			}
+			if b := edfWindowViolation(ws[:added], picks); b != "" && bad == "" {
+				bad = fmt.Sprintf("segment after %d Adds: %s", added, b)
+			}
+			if added == len(ws) {
+				break
+			}
+			add()
+		}
+		run.Count(fmt.Sprintf("edfops|%v|%d", ws, len(ops)), true, "edf-add-after-picks")
+		rep := map[string]interface{}{"part": "edf-add-interleaved", "weights_in_add_order": ws, "ops": opsJ}
+		if bad != "" {
+			run.Fail("edf:window-bound-after-late-add", bad, rep)
+		}
+		var wsz []string
+		for _, w := range ws {
+			wsz = append(wsz, CoqZ(int64(w)))
+		}
+		osh.Add(fmt.Sprintf("(%s, %s)", CoqList(wsz), CoqList(ops)), map[string]interface{}{"part": "edf-add-interleaved", "weights_in_add_order": ws, "nops": len(ops)})
+		if osh.Len() >= 60 {
+			osh.Close()
+			osh = run.NewShard(osh.Header, osh.Typ, osh.Eval)
+		}
+	}
+	osh.Close()
+
 	// ---------------- part 3: the weighted round robin BALANCER (EdfLoadBalancer.refresh + ChooseHost) ----------------
 	// all hosts healthy; the balancer is rebuilt several times so that different numbers of random pre-picks are seen
 	wsh := run.NewShard("From MV Require Import Model.Edf.\nFrom Coq Require Import List ZArith.\nImport ListNotations.\nOpen Scope Z_scope.\n",
